@@ -196,8 +196,9 @@ fn via_reader(col: &mut Collector, exp: &Expectation, ok: &OkObs, bytes: &[u8]) 
     if (h >> 40) & 1 == 1 {
         stream.extend_from_slice(&[0x8D, 0x48, 0x40, 0xD6]);
     }
-    let mut cur = std::io::Cursor::new(&stream[..]);
-    cur.set_position(plen as u64);
+    // a reader that fragments its reads (1..=5 bytes per call), like a socket or a small BufReader
+    let chunk = 1 + ((h >> 16) % 5) as usize;
+    let mut cur = crate::rdr::HostileReader::new_at(&stream, plen, vec![], chunk);
     col.count("frames_also_decoded_via_reader", 1);
     match mon::guarded(|| Frame::from_reader(&mut cur)) {
         Ok(Ok(f)) => {
@@ -246,6 +247,18 @@ pub fn judge(g: &Gillham, col: &mut Collector, bytes: &[u8]) -> (Expectation, Ob
         }
         Res::Err(e) => {
             col.class(&format!("{}/err", exp.class));
+            // a truncated frame at the end of a stream must be rejected through a reader as well
+            if exp.verdict == Verdict::RejectShort && !bytes.is_empty() && crate::collect::fnv(bytes) % 4 == 0 {
+                let h = crate::collect::fnv(bytes);
+                let plen = 1 + (h >> 8) as usize % 29;
+                let mut stream: Vec<u8> = (0..plen).map(|i| (h >> (i % 7)) as u8 ^ 0x3C).collect();
+                stream.extend_from_slice(bytes);
+                let mut cur = crate::rdr::HostileReader::new_at(&stream, plen, vec![], 1 + ((h >> 16) % 5) as usize);
+                col.count("short_buffers_also_decoded_via_reader", 1);
+                if let Ok(Ok(f)) = mon::guarded(|| Frame::from_reader(&mut cur)) {
+                    col.add(finding("C02", "accepts_invalid", &format!("{}/via_reader/RejectShort", exp.class), format!("a buffer shorter than its format's frame was accepted by from_reader at stream offset {plen}: {f:?}"), bytes));
+                }
+            }
             if exp.verdict == Verdict::Accept {
                 col.add(finding("C02", "rejects_valid", &exp.class, format!("decoder returned Err({e}) for a frame of a supported format and sufficient length"), bytes));
             }
